@@ -5,13 +5,29 @@ use crate::pool::{self, WorkerArgs};
 use serde_json::{json, Value};
 use std::io::Read;
 
+/// a source that hands out at most `k` bytes per call and counts how often it is asked again after it has
+/// reported the end of the data: a builder that keeps polling an exhausted source does not terminate
 struct Slow<'a> {
     data: &'a [u8],
     k: usize,
+    polled_after_end: usize,
 }
+impl<'a> Slow<'a> {
+    fn new(data: &'a [u8], k: usize) -> Self {
+        Slow { data, k, polled_after_end: 0 }
+    }
+}
+/// the unchanged builder asks an exhausted source at most three more times
+pub const POLL_LIMIT: usize = 1_000;
 impl Read for Slow<'_> {
     fn read(&mut self, buf: &mut [u8]) -> std::io::Result<usize> {
         let n = buf.len().min(self.k).min(self.data.len());
+        if self.data.is_empty() && !buf.is_empty() {
+            self.polled_after_end += 1;
+            if self.polled_after_end > POLL_LIMIT {
+                panic!("NONTERMINATION: the exhausted source was polled more than {POLL_LIMIT} times");
+            }
+        }
         buf[..n].copy_from_slice(&self.data[..n]);
         self.data = &self.data[n..];
         Ok(n)
@@ -28,7 +44,8 @@ fn content(kind: usize, n: usize) -> Vec<u8> {
     }
 }
 const CONTENTS: [&str; 5] = ["constant", "ramp", "period 16", "period 17", "text"];
-const READERS: [&str; 3] = ["whole slice", "1 byte per read", "100 bytes per read"];
+const READERS: [&str; 6] = ["whole slice", "1 byte per read", "100 bytes per read", "7 bytes per read", "15 bytes per read", "3 bytes per read"];
+const CHUNK: [usize; 6] = [usize::MAX, 1, 100, 7, 15, 3];
 
 #[derive(Clone, Debug)]
 pub struct Case {
@@ -37,6 +54,10 @@ pub struct Case {
     dict_size: usize,
     kind: usize,
     reader: usize,
+    /// non-empty: the source is a chain of that many files (as create_raw_dict_from_dir builds it), `len` their sum
+    files: Vec<usize>,
+    /// go through create_raw_dict_from_dir on a real directory (nested when the flag is set)
+    real_dir: Option<bool>,
 }
 
 pub fn cases(tier: Tier) -> Vec<Case> {
@@ -70,9 +91,45 @@ pub fn cases(tier: Tier) -> Vec<Case> {
                         if len > 300 && reader == 1 && kind != 4 {
                             continue;
                         }
-                        v.push(Case { len, estimate: est, dict_size, kind, reader });
+                        // chunk sizes that step over the reservoir size without meeting it: small sources, two contents
+                        if reader >= 3 && (len > 300 && !(kind == 4 && [1000, 2049, 10_000].contains(&len)) || !(kind == 0 || kind == 4)) {
+                            continue;
+                        }
+                        v.push(Case { len, estimate: est, dict_size, kind, reader, files: vec![], real_dir: None });
                     }
                 }
+            }
+        }
+    }
+    // a chain of files, as create_raw_dict_from_dir hands it to the builder (every file end is a short read):
+    // every vector of 1..=3 file sizes over a set that straddles the 16-byte reservoir
+    const SIZES: [usize; 9] = [0, 1, 7, 10, 15, 16, 17, 100, 5000];
+    let mut vecs: Vec<Vec<usize>> = vec![];
+    for a in SIZES {
+        vecs.push(vec![a]);
+        for b in SIZES {
+            vecs.push(vec![a, b]);
+            for c in SIZES {
+                vecs.push(vec![a, b, c]);
+            }
+        }
+    }
+    for files in &vecs {
+        let len: usize = files.iter().sum();
+        for dict_size in [0usize, 16, 64, 2048] {
+            for kind in [0usize, 4] {
+                for reader in [0usize, 3] {
+                    v.push(Case { len, estimate: len, dict_size, kind, reader, files: files.clone(), real_dir: None });
+                }
+            }
+        }
+    }
+    // the real directory walk: up to two files (flat and nested), an empty directory
+    v.push(Case { len: 0, estimate: 0, dict_size: 64, kind: 4, reader: 0, files: vec![], real_dir: Some(false) });
+    for files in vecs.iter().filter(|f| f.len() <= 2 && f.iter().all(|s| [0usize, 10, 16, 5000].contains(s))) {
+        for nested in [false, true] {
+            for dict_size in [16usize, 2048] {
+                v.push(Case { len: files.iter().sum(), estimate: files.iter().sum(), dict_size, kind: 4, reader: 0, files: files.clone(), real_dir: Some(nested) });
             }
         }
     }
@@ -82,19 +139,74 @@ pub fn cases(tier: Tier) -> Vec<Case> {
 fn run_case(c: &Case, seed: u64) -> Result<Vec<u8>, String> {
     let data = content(c.kind, c.len);
     fastrand::seed(seed);
+    if let Some(nested) = c.real_dir {
+        let root = crate::ev::verif_dir().join(".work").join(format!("c20-{}", std::process::id()));
+        let _ = std::fs::remove_dir_all(&root);
+        let mut at = 0;
+        for (i, n) in c.files.iter().enumerate() {
+            let d = if nested && i % 2 == 1 { root.join("sub").join("deeper") } else { root.clone() };
+            std::fs::create_dir_all(&d).map_err(|e| format!("MODEL: {e}"))?;
+            std::fs::write(d.join(format!("sample{i}.txt")), &data[at..at + n]).map_err(|e| format!("MODEL: {e}"))?;
+            at += n;
+        }
+        std::fs::create_dir_all(&root).map_err(|e| format!("MODEL: {e}"))?;
+        // files cannot count how often they are polled: the call runs on its own thread and is given 20 s; after
+        // the first call that does not come back the remaining directory cases of this worker are skipped (the
+        // stuck thread keeps a core busy until the worker exits)
+        static DIR_HUNG: std::sync::atomic::AtomicBool = std::sync::atomic::AtomicBool::new(false);
+        if DIR_HUNG.load(std::sync::atomic::Ordering::Relaxed) {
+            let _ = std::fs::remove_dir_all(&root);
+            return Err("SKIPPED".into());
+        }
+        let (tx, rx) = std::sync::mpsc::channel();
+        let (root2, dict_size) = (root.clone(), c.dict_size);
+        std::thread::spawn(move || {
+            fastrand::seed(seed);
+            let r = guarded(|| {
+                let mut out = Vec::new();
+                let r = ruzstd::dictionary::create_raw_dict_from_dir(&root2, &mut out, dict_size);
+                (out, r.map_err(|e| e.to_string()))
+            });
+            let _ = tx.send(r);
+        });
+        let r = match rx.recv_timeout(std::time::Duration::from_secs(20)) {
+            Ok(r) => r,
+            Err(_) => {
+                DIR_HUNG.store(true, std::sync::atomic::Ordering::Relaxed);
+                return Err("NONTERMINATION: create_raw_dict_from_dir did not return within 20 s".into());
+            }
+        };
+        let _ = std::fs::remove_dir_all(&root);
+        return match r {
+            Ok((out, Ok(()))) => Ok(out),
+            Ok((_, Err(e))) => Err(format!("create_raw_dict_from_dir returned an error for a readable directory: {e}")),
+            Err(p) => Err(p),
+        };
+    }
     guarded(|| {
         let mut out = Vec::new();
-        match c.reader {
-            0 => ruzstd::dictionary::create_raw_dict_from_source(data.as_slice(), c.estimate, &mut out, c.dict_size),
-            1 => ruzstd::dictionary::create_raw_dict_from_source(Slow { data: &data, k: 1 }, c.estimate, &mut out, c.dict_size),
-            _ => ruzstd::dictionary::create_raw_dict_from_source(Slow { data: &data, k: 100 }, c.estimate, &mut out, c.dict_size),
+        if c.files.is_empty() {
+            ruzstd::dictionary::create_raw_dict_from_source(Slow::new(&data, CHUNK[c.reader]), c.estimate, &mut out, c.dict_size);
+        } else {
+            let mut chained: Box<dyn Read> = Box::new(std::io::empty());
+            let mut at = 0;
+            for n in &c.files {
+                chained = Box::new(chained.chain(Slow::new(&data[at..at + n], CHUNK[c.reader])));
+                at += n;
+            }
+            ruzstd::dictionary::create_raw_dict_from_source(chained, c.estimate, &mut out, c.dict_size);
         }
         out
     })
 }
 
 fn describe(c: &Case) -> String {
-    format!("source of {} bytes ({}, {}), size estimate {}, dictionary size {}", c.len, CONTENTS[c.kind], READERS[c.reader], c.estimate, c.dict_size)
+    let src = match (&c.real_dir, c.files.is_empty()) {
+        (Some(nested), _) => format!("create_raw_dict_from_dir over a {} directory with files of {:?} bytes", if *nested { "nested" } else { "flat" }, c.files),
+        (None, false) => format!("chain of sources of {:?} bytes", c.files),
+        (None, true) => format!("source of {} bytes", c.len),
+    };
+    format!("{src} ({}, {}), size estimate {}, dictionary size {}", CONTENTS[c.kind], READERS[c.reader], c.estimate, c.dict_size)
 }
 
 fn worker(tier: Tier, wa: &WorkerArgs) -> i32 {
@@ -123,6 +235,9 @@ fn worker(tier: Tier, wa: &WorkerArgs) -> i32 {
             }
         };
         match run_case(c, seed) {
+            Err(p) if p == "SKIPPED" => {}
+            Err(p) if p.contains("NONTERMINATION") => bad(format!("hang:{}", if c.real_dir.is_some() { "from_dir" } else if c.files.is_empty() { "exhausted_source_polled" } else { "exhausted_chain_polled" }), format!("{}: does not terminate: {p}", describe(c))),
+            Err(p) if p.starts_with("create_raw_dict_from_dir returned") => bad("from_dir:error".into(), format!("{}: {p}", describe(c))),
             Err(p) => bad(format!("panic:{}", p.rsplit(" @ ").next().unwrap_or("")), format!("{}: panic: {p}", describe(c))),
             Ok(out) => {
                 if out.len() > c.dict_size {
@@ -188,7 +303,7 @@ pub fn main(tier: Tier, replay: Option<Value>, wa: Option<WorkerArgs>) -> i32 {
     run.set("distinct_nontrivial", nontrivial);
     run.set("cases_planned", cs.len() as u64);
     run.set("exhaustive", true);
-    run.set("rule", "create_raw_dict_from_source with the random generator seeded from VERIF_SEED (each case under two seeds): true source length every value 0..=300 and {1000, 2047, 2048, 2049, 4096, 10000 (+30000, 100000)} x size estimate {0, 15, 16, 17, 31, 32, len/2, len, 2*len, 10^6, 2^32, 2^32+2048} x dictionary size {0, 1, 15, 16, 17, 64, 2047, 2048, 2049, 4096, 10^6} x content {constant, ramp, period 16, period 17, text} x reader {whole slice, 1 byte per read, 100 bytes per read}; oracle: returns (300 s watchdog in a worker process; 4 GiB and 10^6 estimates only for a few source lengths because the builder's segment scoring is quadratic in the sample), no panic, output.len() <= dict_size. non-trivial = a non-empty dictionary within the limit");
+    run.set("rule", "create_raw_dict_from_source with the random generator seeded from VERIF_SEED (each case under two seeds): true source length every value 0..=300 and {1000, 2047, 2048, 2049, 4096, 10000 (+30000, 100000)} x size estimate {0, 15, 16, 17, 31, 32, len/2, len, 2*len, 10^6, 2^32, 2^32+2048} x dictionary size {0, 1, 15, 16, 17, 64, 2047, 2048, 2049, 4096, 10^6} x content {constant, ramp, period 16, period 17, text} x reader {whole slice, 1 / 100 bytes per read; 7 / 15 / 3 bytes per read (chunks that step over the reservoir size) for two contents}; then every chain of 1..=3 sources with sizes from {0,1,7,10,15,16,17,100,5000} (what create_raw_dict_from_dir builds: each file end is a short read) x dictionary size {0,16,64,2048} x 2 contents x {whole, 7-byte reads}, and create_raw_dict_from_dir itself over real flat / nested directories with up to two files; oracle: returns (300 s watchdog in a worker process; 4 GiB and 10^6 estimates only for a few source lengths because the builder's segment scoring is quadratic in the sample), no panic, the source is not polled more than 1000 times after it reported its end (the unchanged builder asks at most three more times; the real-directory calls get 20 s on their own thread) (non-termination made finite), output.len() <= dict_size. non-trivial = a non-empty dictionary within the limit");
     run.sample(json!({"case": "source of 1000 bytes (text, 100 bytes per read), size estimate 1000, dictionary size 64"}));
     run.finish()
 }
